@@ -10,7 +10,7 @@ lost, duplicated, re-ordered, delayed across attempts; timeouts may fire anywher
 -/
 import GeckoModel.Proofs.TransferSync
 import GeckoModel.Generated.ThreadedFacts
-import GeckoModel.Model.Coop
+import GeckoModel.Proofs.Coop
 import GeckoModel.Generated.Skeletons
 
 namespace GeckoModel.C01
@@ -211,5 +211,32 @@ theorem transfer_holds_the_connection_for_all_its_attempts :
     Coop.atMostOnce (fun a => a.kind == .acquired && a.name == "protocol.Lock") Skeletons.sk_driver_async_spastruct__GeckoAsyncStructure_get = true ∧
     Coop.alwaysHeld (fun a => a.kind == .acquired && a.name == "protocol.Lock") (fun a => a.kind == .release && a.name == "protocol.Lock")
       (fun a => a.kind == .call && a.name == "queue_send") Skeletons.sk_driver_async_spastruct__GeckoAsyncStructure_get = true := by decide +kernel
+
+/-! ### an installation needs an in-sequence FINAL segment -/
+
+/-- **only a complete chain is installed** (both assemblers, over their regenerated skeletons): `replace_status_block_segment` is
+called only on a path on which - since the reply in hand was received - the segment was found IN SEQUENCE and it was the FINAL one
+(`next == 0`).  A chain that ended after a gap (its first or a middle segment lost), or a final segment arriving out of sequence,
+cannot reach the installation: there is no path around either test -/
+theorem install_needs_in_sequence_final_segment :
+    Coop.onlyUnderBothGuards (Coop.isAwaitOf "request.wait_for_response") (Coop.isBranch true "next_expected == request.sequence")
+      (Coop.isBranch true "request.next == 0") (Coop.isCallOf "self.replace_status_block_segment")
+      Skeletons.sk_driver_async_spastruct__GeckoAsyncStructure_get = true ∧
+    Coop.onlyUnderBothGuards (fun _ => false) (Coop.isBranch false "not self._next_expected == handler.sequence")
+      (Coop.isBranch true "handler.next == 0") (Coop.isCallOf "self.replace_status_block_segment")
+      Skeletons.sk_driver_spastruct__GeckoStructure__on_status_block_received = true := by decide +kernel
+
+/-- the same over traces of the awaitable transfer: every trace is accepted by the guard monitor -/
+theorem install_needs_in_sequence_final_segment_traces {t : List Coop.Ev} {o : Coop.Out}
+    (h : Coop.Run Skeletons.sk_driver_async_spastruct__GeckoAsyncStructure_get t o) :
+    (Coop.runMon (Coop.guardMon (Coop.isAwaitOf "request.wait_for_response") (Coop.isBranch true "next_expected == request.sequence")
+      (Coop.isBranch true "request.next == 0") (Coop.isCallOf "self.replace_status_block_segment")) 0 t).isSome = true :=
+  Coop.onlyUnderBothGuards_sound install_needs_in_sequence_final_segment.1 h
+
+/-- non-vacuity: a flattened loop that installs whenever the final segment arrives while nothing is "expected" has a path to the
+installation on which the segment in hand was NOT in sequence -/
+example : Coop.onlyUnderBothGuards (Coop.isAwaitOf "w") (Coop.isBranch true "in-sequence") (Coop.isBranch true "final") (Coop.isCallOf "install")
+    (.loop (.seq (.ev (.aw "w")) (.seq (.alt (.ev (.act ⟨.brT, "in-sequence"⟩)) (.ev (.act ⟨.brF, "in-sequence"⟩)))
+      (.alt (.seq (.ev (.act ⟨.brT, "final"⟩)) (.ev (.act ⟨.call, "install"⟩))) (.ev (.act ⟨.brF, "final"⟩)))))) = false := by decide +kernel
 
 end GeckoModel.C01
